@@ -1697,6 +1697,15 @@ def f_nanquantile(a, q, axis=None, **kw):
     raise Unsupported('nanquantile with q not in {0, 1}')
 
 
+def f_quantile(a, q, axis=None, **kw):
+    """NaN-propagating quantile for the extreme quantiles only (like np.min / np.max)"""
+    if q in (0, 0.0):
+        return f_min(a, axis=axis)
+    if q in (1, 1.0):
+        return f_max(a, axis=axis)
+    raise Unsupported('quantile with q not in {0, 1}')
+
+
 def f_nanmean(a, axis=None, **kw):
     a = as_symarray(a)
 
@@ -1802,7 +1811,7 @@ FUNCS = {'amax': f_max, 'max': f_max, 'amin': f_min, 'min': f_min, 'nanmin': _na
          'argmin': f_argext(False), 'argmax': f_argext(True), 'nanargmin': f_argext(False, True), 'nanargmax': f_argext(True, True),
          'where': f_where, 'nonzero': lambda a: f_where(a), 'clip': f_clip, 'sort': f_sort, 'argsort': f_argsort,
          'median': lambda a, axis=None, **k: f_median(a, axis, False), 'nanmedian': lambda a, axis=None, **k: f_median(a, axis, True),
-         'argwhere': f_argwhere, 'diff': f_diff, 'nanquantile': f_nanquantile, 'nanmean': f_nanmean, 'cumsum': f_cumsum, 'nancumsum': lambda a, axis=None, **k: f_cumsum(SymArray(_elt(lambda e: ite(isnan(e), cast(0, as_symarray(a).kind), e), as_symarray(a)._a), as_symarray(a).kind), axis=axis, **k), 'copy': lambda a, **k: a.copy(), 'full_like': f_full_like,
+         'argwhere': f_argwhere, 'diff': f_diff, 'nanquantile': f_nanquantile, 'quantile': f_quantile, 'nanmean': f_nanmean, 'cumsum': f_cumsum, 'nancumsum': lambda a, axis=None, **k: f_cumsum(SymArray(_elt(lambda e: ite(isnan(e), cast(0, as_symarray(a).kind), e), as_symarray(a)._a), as_symarray(a).kind), axis=axis, **k), 'copy': lambda a, **k: a.copy(), 'full_like': f_full_like,
          'zeros_like': lambda a, dtype=None, **k: f_full_like(a, 0, dtype), 'ones_like': lambda a, dtype=None, **k: f_full_like(a, 1, dtype),
          'empty_like': lambda a, dtype=None, **k: f_full_like(a, 0, dtype),
          'nan_to_num': f_nan_to_num, 'isin': f_isin, 'count_nonzero': f_count_nonzero, 'array_equal': f_array_equal, 'pad': f_pad,
